@@ -61,6 +61,16 @@ WFFrom(s, i) == IF i > Len(s) THEN TRUE
 \* every ESC begins a well-formed (terminated) CSI or OSC sequence
 WellFormed(s) == WFFrom(s, 1)
 
+\* the text *parses*: every ESC either begins a terminated CSI / OSC sequence or lies inside one (an OSC payload may
+\* contain an ESC that is not followed by a backslash; "ESC ] up to BEL or ESC \" still delimits the sequence).  This
+\* is the domain of C10's first sentence: read literally ("every ESC begins a sequence") it would exclude even the ESC
+\* of an "ESC \" terminator, so the ESCs inside a sequence cannot be meant.  WellFormed (stricter) is what C02 / C13 use.
+RECURSIVE ParsesFrom(_, _)
+ParsesFrom(s, i) == IF i > Len(s) THEN TRUE
+                    ELSE IF s[i] # ESC THEN ParsesFrom(s, i + 1)
+                    ELSE LET e == SeqEnd(s, i) IN e > 0 /\ ParsesFrom(s, e + 1)
+Parses(s) == ParsesFrom(s, 1)
+
 RECURSIVE StripDeclAcc(_, _, _)
 StripDeclAcc(s, i, acc) == IF i > Len(s) THEN acc
                            ELSE IF s[i] # ESC THEN StripDeclAcc(s, i + 1, Append(acc, s[i]))
